@@ -66,7 +66,17 @@ ROWS = [
     R("no" + f, "%%option reentrant no%s" % f, None, [("noanysym", f)], without_opt="%option reentrant",
       invert=True, base={"code": RMAIN})
     for f in ("yyget_extra", "yyset_extra", "yyget_leng", "yyget_text", "yyget_lineno", "yyset_lineno",
-              "yyget_in", "yyset_in", "yyget_out", "yyset_out", "yyget_debug", "yyset_debug")
+              "yyget_in", "yyset_in", "yyget_out", "yyset_out", "yyget_debug", "yyset_debug",
+              "yyget_column", "yyset_column")
+] + [
+    R("no" + f, "%%option reentrant bison-bridge bison-locations no%s" % f, None, [("noanysym", f)],
+      without_opt="%option reentrant bison-bridge bison-locations", invert=True,
+      base={"top": "typedef int YYSTYPE; typedef struct { int first_line; } YYLTYPE;",
+            "code": "int main(void) { return 0; }\n"})
+    for f in ("yyget_lval", "yyset_lval", "yyget_lloc", "yyset_lloc")
+] + [
+    R("main-implies-noyywrap", "%option main", ["--main"], [("links",)],
+      base={"nowrap": False, "code": ""}, without_expect_fail=True),
 ] + [
     R("extra-type", '%option reentrant extra-type="struct probe *"', None,
       [("compiles",)], without_opt="%option reentrant",
@@ -154,7 +164,7 @@ ROWS = [
     R("always-interactive", "%option always-interactive", ["--always-interactive"],
       [("output_has", "yy_is_interactive = 1")]),
     R("never-interactive", "%option never-interactive", ["--never-interactive"],
-      [("output_has", "yy_is_interactive = 0")]),
+      [("output_lacks", "isatty(")], invert=True),
     R("read", "%option read", ["--read"], [("output_has_re", r"read\(\s*fileno\(")]),
     R("7bit", "%option 7bit", ["-7"], [("output_has_re", r"yy_ec\[128\]")]),
     R("ecs-off", "%option noecs", ["--noecs"], [("output_lacks", "yy_ec[")], invert=True),
@@ -371,6 +381,19 @@ def row_worker(args):
                 res["problems"].append(("no-effect-cli", "command line form %s: documented effect not "
                                         "observed by probe %r (flex rc=%s stderr=%r cc=%r)" % (
                                             row["cli"], p[:2], b.flex.rc, b.err[-200:], b.cc_err[-300:]), b))
+    if row.get("invert") and row["probes"] and row["probes"][0][0] in ("noanysym", "noanysym_re") and \
+            builds["opt"].obj and builds["none"].obj:
+        p0 = row["probes"][0]
+        _, a_with = nm(builds["opt"].obj)
+        _, a_none = nm(builds["none"].obj)
+        removed = a_none - a_with
+        added = a_with - a_none
+        stray = [x for x in removed if not (x == p0[1] if p0[0] == "noanysym" else re.search(p0[1], x))]
+        if stray or added:
+            res["problems"].append(("collateral", "the option also changes other symbols of the scanner: "
+                                    "removed %s added %s" % (sorted(stray), sorted(added)), builds["opt"]))
+        else:
+            res["feats"]["exact_removal"] = 1
     if "cli" in builds and builds["cli"].flex.rc == 0 and builds["opt"].flex.rc == 0 and not row.get("no_o"):
         a = re.sub(r'#line \d+ ".*"\n', "", builds["opt"].text)
         c = re.sub(r'#line \d+ ".*"\n', "", builds["cli"].text)
@@ -413,6 +436,7 @@ def run(pid, tier):
     chk.extra["option_rows"] = len(ROWS)
     chk.require("rows_ok", 40)
     chk.require("cli_identical", 10)
+    chk.require("exact_removal", 20)
     return chk
 
 
